@@ -107,6 +107,7 @@ def batches(tier):
     b = [{'name': 'keys-enum', 'n': n * n, 'profile': 'enum', 'nsig': n},
          {'name': 'concurrent-nofault', 'n': 3000 if tier == 'quick' else 120000, 'profile': 'c14-nofault'},
          {'name': 'concurrent-evict', 'n': 9000 if tier == 'quick' else 400000, 'profile': 'c14'}]
+    b.append({'name': 'keys-lookalike', 'n': 30000 if tier == 'quick' else 400000, 'profile': 'lookalike'})
     if tier == 'thorough':
         b.append({'name': 'keys-sampled-large', 'n': 400000, 'profile': 'sample'})
     return b
@@ -118,6 +119,14 @@ def make_case(batch, seed):
         i, j = divmod(batch['index'], batch['nsig'])
         return {'prog': {'world': 'key', 'sigs': [sigs[i], sigs[j], sigs[i]], 'cache': 'dict' if (i + j) % 2 else 'default'},
                 'sched': {}}
+    if batch['profile'] == 'lookalike':
+        # sig1, a structurally confusable variant of it, sig1 again; sometimes through one decorator object shared by two functions
+        rng = random.Random(seed)
+        big = kw.signatures(3, 3, nvalues=3, names=3) if not hasattr(make_case, '_big') else make_case._big
+        make_case._big = big
+        a = big[rng.randrange(len(big))]
+        return {'prog': {'world': 'key', 'sigs': [a, a, a], 'cache': rng.choice(['dict', 'default']),
+                         'lookalike': rng.randrange(12), 'shared_decorator': rng.random() < 0.3}, 'sched': {}}
     if batch['profile'] == 'sample':
         rng = random.Random(seed)
         big = kw.signatures(3, 3, nvalues=3, names=3) if not hasattr(make_case, '_big') else make_case._big
